@@ -1285,7 +1285,7 @@ def _check_step(ctx, report, model, model_kind, runner, idx, before, op, res, ra
 
 def _relax_by_steps(runner, before, op, new):
     """what relax documents, done by hand with the path's own step(): up to `relaxsteps` plain steps, each followed by the
-    test max|displacement|/timestep < tolerance; then the climbing images = the first `climbpoints` interior strict
+    test max|displacement|/timestep < tolerance; then the climbing images = the first `climbpoints` interior
     maxima of the energies of the string reached; up to `climbsteps` steps with these. None if `new` is that string."""
     np = _np()
     h, tol = op['h'], op.get('tol', 0.0)
@@ -1559,7 +1559,7 @@ class _Selection:
 
     @staticmethod
     def want(E, cp):
-        idx = [i for i in range(1, len(E) - 1) if E[i] > E[i - 1] and E[i] > E[i + 1]]
+        idx = [i for i in range(1, len(E) - 1) if E[i - 1] < E[i] and not E[i] < E[i + 1]]
         return idx[:(1 if cp is None else cp)]
 
     @staticmethod
@@ -1571,8 +1571,8 @@ class _Selection:
         for k, s in enumerate(seen):
             if s != want:
                 return (f'climbing step {k} was handed climbindex={s}; the image energies after the relaxation steps are {E}: '
-                        f'the first {1 if case["climbpoints"] is None else case["climbpoints"]} interior images strictly above both '
-                        f'neighbours are {want}')
+                        f'the first {1 if case["climbpoints"] is None else case["climbpoints"]} interior images above the previous and '
+                        f'not below the next image are {want}')
         return None
 
 
@@ -1934,7 +1934,7 @@ def _search_integ_arrays(ctx, rng, broken):
 
 def _search_selection(ctx, rng, broken):
     """the climbing images relax chooses: the first `climbpoints` interior images whose energy (after the relaxation
-    steps) is strictly above both neighbours."""
+    steps) is above the previous image's and not below the next image's (the first image of a flat top counts)."""
     for it in range(ctx.n(150, 1500)):
         case = _Selection.gen(rng)
         E, seen = _Selection.run(case)
@@ -2115,88 +2115,113 @@ def _search_paths(ctx, rng, broken):
 def _search_relax(ctx, rng):
     """partial clause (explored on the implementation): string relaxation on the family
          E(x,y) = (x^2-1)^2 + a (x^3/3 - x) + k (y - c (x^2-1))^2 ,  |a| < 4
-       minima (-1,0), (+1,0); saddle (-a/4, c (a^2/16 - 1)) on the valley floor."""
+       minima (-1,0), (+1,0); saddle (-a/4, c (a^2/16 - 1)) on the valley floor. Initial strings: straight or bent between
+       two points near the minima; and, on the symmetric members (a = c = 0), mirror-symmetric strings with an even number
+       of images (the two central images then have bit-equal energies)."""
     np = _np()
-    import atomman.mep as mep
     n_cases = ctx.n(4, 16)
+    variants = [('default', dict(relaxsteps=20000, climbsteps=20000)),     # relaxation converges by tolerance, then climbs
+                ('rk', dict(relaxsteps=150, climbsteps=20000)),            # short relaxation, then climbing
+                ('euler', dict(relaxsteps=20000, climbsteps=20000))]
     for it in range(n_cases):
         k = rng.choice([1.5, 2.0, 3.0])
         c = rng.choice([0.0, 0.5, -0.4, 0.7])
         a = rng.choice([0.0, 0.6, -0.5, 0.3]) if it else 0.6
-        xs = -a / 4
-        saddle = np.array([xs, c * (xs * xs - 1)])
-
-        def energy(p, k=k, c=c, a=a):
-            p = np.asarray(p)
-            x, y = p[..., 0], p[..., 1]
-            return (x * x - 1) ** 2 + a * (x ** 3 / 3 - x) + k * (y - c * (x * x - 1)) ** 2
-
-        def grad(p, k=k, c=c, a=a):
-            x, y = p[..., 0], p[..., 1]
-            u = y - c * (x * x - 1)
-            gx = 4 * x * (x * x - 1) + a * (x * x - 1) + 2 * k * u * (-2 * c * x)
-            gy = 2 * k * u
-            return np.stack([gx, gy], axis=-1)
-        barrier = float(energy(saddle))
         nimg = rng.choice([8, 10, 11, 13])
         bend = rng.choice([0.0, 0.3, -0.2])
         t = np.linspace(0, 1, nimg)
         coord = np.outer(1 - t, [-0.8, 0.25]) + np.outer(t, [1.15, -0.2])
         coord[:, 1] += bend * np.sin(np.pi * t)
-        variants = [('default', dict(relaxsteps=20000, climbsteps=20000)),     # relaxation converges by tolerance, then climbs
-                    ('rk', dict(relaxsteps=150, climbsteps=20000)),            # short relaxation, then climbing
-                    ('euler', dict(relaxsteps=20000, climbsteps=20000))]
         for integ, kw in variants[: (3 if it < 2 or ctx.thorough else 1)]:
-            info = {'op': 'relax', 'k': k, 'c': c, 'a': a, 'images': nimg, 'bend': bend, 'options': integ, **kw}
-            try:
-                if integ == 'default':
-                    path = mep.create_path(coord, energy)
-                else:
-                    path = mep.create_path(coord, energy, gradientfxn=(lambda fxn, p, grad=grad: grad(p)),
-                                           gradientkwargs={}, integratorfxn=integ)
-            except Exception as e:  # noqa
-                ctx.violate('create_path:' + integ, f'create_path with {integ} options raised {type(e).__name__}: {e}', info)
-                continue
-            try:
-                g_start, f_start = np.array(path.grad_energy()), np.array(path.force)   # reads before the relaxation
-                new = path.relax(verbose=False, **kw)
-            except Exception as e:  # noqa
-                ctx.violate('relax:raises', f'relax raised {type(e).__name__}: {e}', info)
-                continue
-            if not np.array_equal(path.coord, coord):
-                ctx.violate('relax:mutates-self', f'relax changed the coordinates of the path it was called on ({integ})', info)
-                continue
-            # keep working with the same object: load the relaxed string into it and read again
-            try:
-                path.coord = new.coord
-                g_loaded, f_loaded, tau = np.array(path.grad_energy()), np.array(path.force), np.array(path.unittangent)
-                exact_g = grad(new.coord)
-                gtol = 1e-6 if integ == 'default' else 1e-12
-                if not np.allclose(g_loaded, exact_g, rtol=0, atol=gtol * (1 + np.abs(exact_g).max())):
-                    ctx.violate('relax:reload-grad', f'after loading the relaxed string into the path it came from ({integ}, k={k}, c={c}, '
-                                f'a={a}, N={nimg}, bend={bend}), grad_energy() differs from the analytic gradient at its coordinates by '
-                                f'{np.abs(g_loaded - exact_g).max():.3g} (it differs from the gradient on the initial string by '
-                                f'{np.abs(g_loaded - g_start).max():.3g})', info)
-                    continue
-                if not np.allclose(f_loaded, np.einsum('ij,ij->i', exact_g, tau), rtol=0, atol=gtol * 10 * (1 + np.abs(exact_g).max())):
-                    ctx.violate('relax:reload-force', f'after loading the relaxed string into the path it came from ({integ}), force is '
-                                f'not grad E . tangent at its coordinates', info)
-                    continue
-            except Exception as e:  # noqa
-                ctx.violate('relax:reload-raises', f'reading the path after coord = relaxed.coord raised {type(e).__name__}: {e}', info)
-                continue
-            E = new.energy()
-            top = int(np.argmax(E))
-            g = float(np.abs(grad(new.coord[top])).max())
-            ends_ok = np.allclose(new.coord[0], [-1, 0], atol=2e-3) and np.allclose(new.coord[-1], [1, 0], atol=2e-3)
-            saddle_ok = np.allclose(new.coord[top], saddle, atol=2e-3) and abs(E[top] - barrier) < 1e-5 and g < 2e-3
-            ctx.stats.case('oracle:relax', (k, c, a, nimg, bend, integ),
-                           sample={**info, 'saddle_found': new.coord[top].tolist(), 'saddle': saddle.tolist(),
-                                   'barrier_found': float(E[top]), 'barrier': barrier})
-            if not (ends_ok and saddle_ok):
-                ctx.violate('relax:saddle', f'relaxed string misses minima/saddle ({integ}, k={k}, c={c}, a={a}, N={nimg}, '
-                            f'bend={bend}): ends {new.coord[0]}, {new.coord[-1]}; top image {new.coord[top]} E={E[top]:.8f} '
-                            f'|grad|={g:.2e} (saddle {saddle}, barrier {barrier:.8f})', info)
+            _relax_case(ctx, k, c, a, coord, integ, kw, {'images': nimg, 'bend': bend})
+    for it in range(ctx.n(3, 12)):
+        k = rng.choice([1.5, 2.0, 3.0])
+        nimg = rng.choice([4, 6, 6, 8, 10, 12])
+        bend = rng.choice([0.0, 0.3, -0.2])
+        x0 = rng.choice([0.9, 0.8, 1.1])
+        xs = [x0 * (2 * j + 1) / (nimg - 1) for j in range(nimg // 2)]
+        half = [[x, bend * (1 - (x / x0) ** 2)] for x in xs]
+        coord = np.array([[-x, y] for x, y in reversed(half)] + half)
+        integ, kw = variants[it % 3]
+        _relax_case(ctx, k, 0.0, 0.0, coord, integ, kw, {'images': nimg, 'bend': bend, 'symmetric': True, 'coord': coord.tolist()})
+
+
+def _relax_case(ctx, k, c, a, coord, integ, kw, extra):
+    np = _np()
+    import atomman.mep as mep
+    nimg = len(coord)
+    xs = -a / 4
+    saddle = np.array([xs, c * (xs * xs - 1)])
+
+    def energy(p, k=k, c=c, a=a):
+        p = np.asarray(p)
+        x, y = p[..., 0], p[..., 1]
+        return (x * x - 1) ** 2 + a * (x ** 3 / 3 - x) + k * (y - c * (x * x - 1)) ** 2
+
+    def grad(p, k=k, c=c, a=a):
+        x, y = p[..., 0], p[..., 1]
+        u = y - c * (x * x - 1)
+        gx = 4 * x * (x * x - 1) + a * (x * x - 1) + 2 * k * u * (-2 * c * x)
+        gy = 2 * k * u
+        return np.stack([gx, gy], axis=-1)
+    barrier = float(energy(saddle))
+    info = {'op': 'relax', 'k': k, 'c': c, 'a': a, 'options': integ, **extra, **kw}
+    what = (f'{integ}, k={k}, c={c}, a={a}, N={nimg}, ' + (f'mirror-symmetric string {coord.tolist()}' if extra.get('symmetric')
+                                                          else f'bend={extra["bend"]}'))
+    try:
+        if integ == 'default':
+            path = mep.create_path(coord, energy)
+        else:
+            path = mep.create_path(coord, energy, gradientfxn=(lambda fxn, p, grad=grad: grad(p)),
+                                   gradientkwargs={}, integratorfxn=integ)
+    except Exception as e:  # noqa
+        ctx.violate('create_path:' + integ, f'create_path with {integ} options raised {type(e).__name__}: {e}', info)
+        return
+    try:
+        g_start, f_start = np.array(path.grad_energy()), np.array(path.force)   # reads before the relaxation
+        new = path.relax(verbose=False, **kw)
+    except Exception as e:  # noqa
+        ctx.violate('relax:raises', f'relax raised {type(e).__name__}: {e} ({what})', info)
+        return
+    if not np.array_equal(path.coord, coord):
+        ctx.violate('relax:mutates-self', f'relax changed the coordinates of the path it was called on ({integ})', info)
+        return
+    # keep working with the same object: load the relaxed string into it and read again
+    try:
+        path.coord = new.coord
+        g_loaded, f_loaded, tau = np.array(path.grad_energy()), np.array(path.force), np.array(path.unittangent)
+        exact_g = grad(new.coord)
+        gtol = 1e-6 if integ == 'default' else 1e-12
+        if not np.allclose(g_loaded, exact_g, rtol=0, atol=gtol * (1 + np.abs(exact_g).max())):
+            ctx.violate('relax:reload-grad', f'after loading the relaxed string into the path it came from ({what}), '
+                        f'grad_energy() differs from the analytic gradient at its coordinates by '
+                        f'{np.abs(g_loaded - exact_g).max():.3g} (it differs from the gradient on the initial string by '
+                        f'{np.abs(g_loaded - g_start).max():.3g})', info)
+            return
+        if not np.allclose(f_loaded, np.einsum('ij,ij->i', exact_g, tau), rtol=0, atol=gtol * 10 * (1 + np.abs(exact_g).max())):
+            ctx.violate('relax:reload-force', f'after loading the relaxed string into the path it came from ({integ}), force is '
+                        f'not grad E . tangent at its coordinates', info)
+            return
+    except Exception as e:  # noqa
+        ctx.violate('relax:reload-raises', f'reading the path after coord = relaxed.coord raised {type(e).__name__}: {e}', info)
+        return
+    E = new.energy()
+    top = int(np.argmax(E))
+    g = float(np.abs(grad(new.coord[top])).max())
+    # relax stops when max|displacement|/timestep (= the largest |rate|, the climbing image's |grad E| included) is below
+    # the default tolerance max(N^-4, 1e-10): the curvatures at the saddle are -4 + O(a) and 2k >= 3
+    tol = max(float(nimg) ** -4, 1e-10)
+    ends_ok = np.allclose(new.coord[0], [-1, 0], atol=max(2e-3, tol)) and np.allclose(new.coord[-1], [1, 0], atol=max(2e-3, tol))
+    saddle_ok = np.allclose(new.coord[top], saddle, atol=max(2e-3, tol)) and abs(E[top] - barrier) < max(1e-5, tol * tol) \
+        and g < max(2e-3, 2 * tol)
+    ctx.stats.case('oracle:relax' + ('-symmetric' if extra.get('symmetric') else ''), (k, c, a, nimg, repr(coord.tolist()), integ),
+                   sample={**{k_: v for k_, v in info.items() if k_ != 'coord'}, 'saddle_found': new.coord[top].tolist(),
+                           'saddle': saddle.tolist(), 'barrier_found': float(E[top]), 'barrier': barrier})
+    if not (ends_ok and saddle_ok):
+        key = 'relax:saddle:tied-top' if (extra.get('symmetric') and nimg % 2 == 0) else 'relax:saddle'
+        ctx.violate(key, f'relaxed string misses minima/saddle ({what}): ends {new.coord[0]}, {new.coord[-1]}; top image '
+                    f'{new.coord[top]} E={E[top]:.8f} |grad|={g:.2e} (saddle {saddle}, barrier {barrier:.8f}); image energies '
+                    f'{E.tolist()}', info)
 
 
 def replay(ctx, payload):
@@ -2236,6 +2261,11 @@ def replay(ctx, payload):
         print('replay central_difference on leading shape', r['lead'], '->', why or 'agrees with the exact gradient')
         if why is not None:
             ctx.violate(f'central_difference:array{len(r["lead"]) + 1}d', 'replayed case still fails: ' + why, r)
+    elif op == 'relax' and 'coord' in r:
+        kw = {k: r[k] for k in ('relaxsteps', 'climbsteps') if k in r}
+        _relax_case(ctx, r['k'], r['c'], r['a'], np.array(r['coord']), r['options'], kw,
+                    {k: r[k] for k in ('images', 'bend', 'symmetric', 'coord') if k in r})
+        print('replay relaxation of the stored string ->', '; '.join(f.what[:300] for f in ctx.violations) or 'ends in the minima, top image at the saddle')
     elif op == 'integ-array':
         names = [r['integrator']] if 'integrator' in r else ['euler', 'rungekutta']
         for name in names:
